@@ -36,6 +36,7 @@ class Lib:
     def __init__(self):
         self.recs, self.enums, self.typedefs, self.fns, self.globals, self.cbs = [], [], [], [], [], []
         self.glabels = {}
+        self.cb_fn_typedef = set()
 
 
 def val_for(t, key, small=False):
@@ -125,6 +126,9 @@ def generate(rng, nfn=None, static_only=False, cxx=False):
         ps = [rng.choice([t for t in types if t.kind in ("int", "float", "ptr")]) for _ in range(rng.randint(0, 3))]
         rt = rng.choice([t for t in types if t.kind in ("int", "float")] + [None])
         lib.cbs.append(("cb%d_t" % i, rt, ps))
+        if rng.random() < 0.4:
+            # the callback type spelled as a pointer to a typedef of FUNCTION type: `typedef R cbN_f(args); typedef cbN_f *cbN_t;`
+            lib.cb_fn_typedef.add("cb%d_t" % i)
     nfn = nfn or rng.randint(3, 25)
     for i in range(nfn):
         r = rng.random()
@@ -210,7 +214,12 @@ def header(lib, static_bodies=False, cxx=False):
     for r in lib.recs:
         out.append(r.decl())
     for cb in lib.cbs:
-        out.append("typedef %s;" % cb_sig(cb, cb[0]))
+        if cb[0] in lib.cb_fn_typedef:
+            fname_ = cb[0][:-2] + "_f"
+            out.append("typedef %s %s(%s);" % (cb[1].c if cb[1] else "void", fname_, ", ".join(p_.c for p_ in cb[2]) or "void"))
+            out.append("typedef %s *%s;" % (fname_, cb[0]))
+        else:
+            out.append("typedef %s;" % cb_sig(cb, cb[0]))
         out.append("%s get_%s(void);" % (cb[0], cb[0]))
     for fn in lib.fns:
         if fn.static:
